@@ -39,6 +39,9 @@ func genNVersion(rnd *hx.Rand, kind string) claircore.Version {
 	n := 1 + rnd.Intn(4)
 	for i := 0; i < n; i++ {
 		j := rnd.Intn(5)
+		if rnd.Chance(1, 4) {
+			j = rnd.Intn(10) // every one of the ten components
+		}
 		switch rnd.Intn(8) {
 		case 0:
 			v.V[j] = int32(-1 - rnd.Intn(3))
